@@ -232,7 +232,17 @@ def run(c) -> CaseResult:
         y0 = call(m, f0)
         g0 = torch.autograd.grad(y0, [f0[k] for k in FLOAT_INPUTS if k in f0 and f0[k].requires_grad] + list(P0.values()), up, allow_unused=True)
         if not bitequal(y.detach(), y0.detach()) or not all(bitequal(a, b) for a, b in zip(g, g0)):
-            res.fail("C15.lossless-not-identity", f"E8M23 simulation changed outputs or gradients\n{src}")
+            def ulp_close(a, b):
+                if a is None or b is None:
+                    return (a is None) == (b is None)
+                return a.shape == b.shape and bool(((a - b).abs() <= 4e-6 * max(1e-30, float(b.abs().max()))).all())
+            if ulp_close(y.detach(), y0.detach()) and all(ulp_close(a, b) for a, b in zip(g, g0)):
+                # last-ulp differences: the straight-through quantisation ops hand on contiguous copies of gradients that are
+                # expanded / strided in the untransformed module, which changes the summation order of later reductions
+                worst = max([float((a - b).abs().max() / max(1e-30, float(b.abs().max()))) for a, b in zip(g, g0) if a is not None and b is not None] + [0.0])
+                res.fail("C15.lossless.last-ulp", f"E8M23 simulation differs from the untransformed module in the last ulps (max {worst:.3g} relative to the largest element)\n{src}")
+            else:
+                res.fail("C15.lossless-not-identity", f"E8M23 simulation changed outputs or gradients\n{src}")
     # simulate_fp8 is the E4M3 / E5M2 instance
     if c["via"] == "simulate_fp8":
         qm2 = simulate_format(m, FPFormat(4, 3), FPFormat(5, 2))
